@@ -971,3 +971,49 @@ Proof.
   rewrite Hwf. cbn [negb].
   rewrite (spec_rules_select _ _ _ _ Hall), Esel, Hsi. reflexivity.
 Qed.
+
+(* ---- non-vacuity of [expand_sound]: its hypotheses hold for the rule selected for a use
+   of a transformer whose template has two ellipses (one of them used twice) and a nested list *)
+Lemma expand_sound_example :
+  let d := defn "(else) ((_ a b ... else (c d)) '(d (a) (b ...) c b ...))" in
+  let u := rd "(m 1 2 3 else (4 5))" in
+  exists tr pat tmpl se,
+    transform_try_new d = Ok tr /\
+    spec_select (tr_literals tr) (tr_ellipsis tr) (tr_rules tr) u = Some (pat, tmpl, se) /\
+    tmpl = rd "'(d (a) (b ...) c b ...)" /\
+    se = [(rd "a", BOne (rd "1")); (rd "b", BMany [BOne (rd "2"); BOne (rd "3")]);
+          (rd "c", BOne (rd "4")); (rd "d", BOne (rd "5"))] /\
+    is_symbol (tr_ellipsis tr) = true /\
+    tmpl_ok (is_expanded_variable pat) (tr_ellipsis tr) false tmpl = true /\
+    (forall x, is_symbol x = true -> is_variable pat x = true <-> exists b, slookup se x = Some b) /\
+    (forall x, is_symbol x = true -> is_expanded_variable pat x = true <-> exists l, slookup se x = Some (BMany l)) /\
+    no_dup (map fst se) = true /\
+    (forall x l, slookup se x = Some (BMany l) -> exists fs, l = map BOne fs) /\
+    expand (tr_ellipsis tr) pat (flat se) (expand_fuel tmpl (flat se)) tmpl (env_new pat) =
+      Ok (Some (rd "'(5 (1) (2 3) 4 2 3)"), env_new pat).
+Proof.
+  cbv zeta.
+  set (d := defn "(else) ((_ a b ... else (c d)) '(d (a) (b ...) c b ...))").
+  set (u := rd "(m 1 2 3 else (4 5))").
+  destruct (transform_try_new d) as [tr|e|s|] eqn:Etr; try (vm_compute in Etr; discriminate).
+  destruct (spec_select (tr_literals tr) (tr_ellipsis tr) (tr_rules tr) u) as [[[pat tmpl] se]|] eqn:Esel.
+  2:{ exfalso. vm_compute in Etr. inversion Etr; subst tr. vm_compute in Esel. discriminate. }
+  exists tr, pat, tmpl, se.
+  assert (Hfacts : tmpl = rd "'(d (a) (b ...) c b ...)" /\
+     se = [(rd "a", BOne (rd "1")); (rd "b", BMany [BOne (rd "2"); BOne (rd "3")]);
+           (rd "c", BOne (rd "4")); (rd "d", BOne (rd "5"))] /\
+     is_symbol (tr_ellipsis tr) = true /\
+     tmpl_ok (is_expanded_variable pat) (tr_ellipsis tr) false tmpl = true /\
+     build (rd "(a b ... else (c d))")
+       (mk_pattern (CPair (rd "_") (rd "(a b ... else (c d))")) [] [] (tr_ellipsis tr) (tr_literals tr) UNDERSCORE) = Ok pat /\
+     S_match (tr_literals tr) (tr_ellipsis tr) (rd "(a b ... else (c d))") (rd "(1 2 3 else (4 5))") = true /\
+     no_dup (pvars (tr_literals tr) (tr_ellipsis tr) (rd "(a b ... else (c d))")) = true /\
+     smatch (tr_literals tr) (tr_ellipsis tr) (rd "(a b ... else (c d))") (rd "(1 2 3 else (4 5))") = Some se /\
+     expand (tr_ellipsis tr) pat (flat se) (expand_fuel tmpl (flat se)) tmpl (env_new pat) =
+       Ok (Some (rd "'(5 (1) (2 3) 4 2 3)"), env_new pat)).
+  { vm_compute in Etr. inversion Etr; subst tr. vm_compute in Esel. inversion Esel; subst pat tmpl se.
+    repeat split; vm_compute; reflexivity. }
+  destruct Hfacts as (Ht & Hse & Hell & Hok & Hb & Hsm & Hnd & Hm & Hex).
+  destruct (selected_rule_facts _ _ _ _ _ _ _ Hell Hb Hsm Hnd Hm) as (H3 & H4 & H5 & H6).
+  repeat (split; [first [assumption | reflexivity]|]). exact Hex.
+Qed.
